@@ -431,6 +431,15 @@ def applyOp (env : Env) (h : HSt) : Op → HSt
 def runHistory (env : Env) (seed : List Comp) (ops : List Op) : HSt :=
   ops.foldl (applyOp env) ⟨St.init seed, []⟩
 
+/-! ### run modes: `Evaluator(incremental=True).process(graph, parallel)`
+
+`process` enters the evaluator (registers the observer) and then `run_incremental` → `dr.run_all` runs `dr.run` on
+sub-graph after sub-graph of the graph (`get_subgraphs`), all on the evaluator's own broker. -/
+
+/-- `incremental=True`: the sub-graphs, each as the rules of its run order -/
+def processIncremental (env : Env) (seed : List Comp) (subgraphs : List (List Rule)) : St :=
+  (runHistory env seed (.register evalObs :: subgraphs.map (fun g => Op.run (g.map (·, true))))).st
+
 /-! ### configuration glue: `insights.apply_default_enabled(config)` followed by `insights.apply_configs(config)`
 
 `apply_default_enabled` sets every known ENABLED entry to `default_component_enabled` (and makes it the default of
